@@ -67,6 +67,13 @@ class Ops:
         if isinstance(a, SumV) or isinstance(b, SumV):
             return self._sum_binop(op, a, b)
         # sequences / strings
+        if isinstance(op, ast.Add) and (_is_sstr(a) or _is_sstr(b)) and \
+                (_is_sstr(a) or isinstance(a, str)) and \
+                (_is_sstr(b) or isinstance(b, str)):
+            from . import sstr
+            return sstr.concat(a, b)
+        if isinstance(op, ast.Mod) and _is_sstr(a):
+            raise Unsupported('% formatting with a structured format string')
         if isinstance(op, ast.Add):
             if isinstance(a, list) and isinstance(b, list):
                 return a + b
@@ -358,6 +365,12 @@ class Ops:
             return a == b
         if isinstance(a, str) and isinstance(b, str):
             return a == b
+        if _is_sstr(a) or _is_sstr(b):
+            if (_is_sstr(a) or isinstance(a, str)) and \
+                    (_is_sstr(b) or isinstance(b, str)):
+                from . import sstr
+                return sstr.equals(a, b, self)
+            return False
         if _isstr(a) and _isstr(b):
             return mk(z3str(a) == z3str(b))
         if _isstr(a) != _isstr(b) and (_isstr(a) or _isstr(b)):
@@ -503,6 +516,9 @@ class Ops:
                               for k in _flatten(container.data)])
         if isinstance(container, str) and isinstance(item, str):
             return item in container
+        if _is_sstr(container):
+            from . import sstr
+            return sstr.contains(container, item, self)
         if _isstr(container) and _isstr(item):
             return mk(z3.Contains(z3str(container), z3str(item)))
         if hasattr(container, 'sym_contains'):
@@ -530,6 +546,8 @@ class Ops:
                 return mk(v.t != 0)
             if k == 'str':
                 return mk(z3.Length(v.t) > 0)
+        if _is_sstr(v):
+            return len(v.pieces) > 0
         if isinstance(v, NDArr):
             fl = _flatten(v.data)
             if len(fl) == 1:
@@ -616,8 +634,13 @@ class Ops:
         raise Unsupported('% formatting of symbolic values')
 
 
+def _is_sstr(v):
+    return type(v).__name__ == 'SStr'
+
+
 def _isstr(v):
-    return isinstance(v, str) or (isinstance(v, Sym) and v.kind == 'str')
+    return isinstance(v, str) or (isinstance(v, Sym) and v.kind == 'str') \
+        or _is_sstr(v)
 
 
 def _hk(k):
